@@ -531,7 +531,7 @@ pub fn probe(ty: &str, text: &str) {
 
 pub fn run(ctx: &mut Ctx) {
     ctx.rule(
-        "typed: instances of 49 battery types (42 derived with tag / rename / convention / header / header_body / attr / \
+        "typed: instances of 90 battery types (83 derived or instantiated generic with tag / rename / convention / header / header_body / attr / \
          body / slot / skip / newtype / generics / nesting / collections, 7 built-in), uniform over types, fields at \
          numeric / text boundaries. cross: printer output (3 writers) of one type read as a random battery type. near: \
          as_value of an instance with 1-3 structural edits (missing / extra / duplicate / reordered items and attributes, \
@@ -551,6 +551,15 @@ pub fn run(ctx: &mut Ctx) {
     let n_types = TYPES.len() as u64;
     let typed = ctx.pick(n_types * 8_000, n_types * 200_000);
     ctx.prop("typed", typed, any_case, |c: &AnyCase| c.visit(TypedCheck));
+
+    // values whose lengths cross the 16 bit MessagePack / collection boundaries (typed laws only)
+    let sizes = ctx.pick(1_500, 40_000);
+    ctx.prop(
+        "sizes",
+        sizes,
+        || crate::battery::Sizes::arb_big().prop_map(AnyCase::Sizes),
+        |c: &AnyCase| c.visit(TypedCheck),
+    );
 
     let cross = ctx.pick(600_000, 15_000_000);
     ctx.prop(
